@@ -1,6 +1,6 @@
 use super::{Vm, VmFileId};
 use crate::{
-  cache::InlineCache,
+  cache::{CacheIdEmitter, InlineCache},
   compiler::{Compiler, Parser, Resolver},
   source::Source,
   FeResult,
@@ -60,6 +60,19 @@ impl Vm {
     #[cfg(feature = "debug")]
     let compiler = compiler.with_io(self.io.clone());
 
+    // each repl line is compiled into the same module, code from earlier lines
+    // keeps its inline cache slots so later lines continue after them
+    let continue_cache = repl && module.id() < self.inline_cache.len();
+    let compiler = if continue_cache {
+      let cache = &self.inline_cache[module.id()];
+      compiler.with_cache_id_emitter(CacheIdEmitter::continuing(
+        cache.property_slots(),
+        cache.invoke_slots(),
+      ))
+    } else {
+      compiler
+    };
+
     let (result, gc, cache_id_emitter) = compiler.compile(&ast);
     self.gc.replace(gc);
 
@@ -76,7 +89,12 @@ impl Vm {
         cache_id_emitter.invoke_count(),
       );
 
-      if module.id() < self.inline_cache.len() {
+      if continue_cache {
+        self.inline_cache[module.id()].grow(
+          cache_id_emitter.property_count(),
+          cache_id_emitter.invoke_count(),
+        );
+      } else if module.id() < self.inline_cache.len() {
         self.inline_cache[module.id()] = cache;
       } else {
         self.inline_cache.push(cache);
